@@ -302,13 +302,13 @@ def chao1(counts):
     hatSchao1 = Sobs + f1^2/(2 f2)
     """
     
-    f1 = counts[0]
+    f1 = float(counts[0])  # squared below: a narrow integer dtype of the counts would overflow
     Sobs = np.sum(counts)
 
     if (len(counts) == 1) or (counts[1] == 0):
         return Sobs + (f1*(f1-1))/2
 
-    f2 = counts[1]
+    f2 = float(counts[1])
     return Sobs + f1**2/(2*f2)
 
 def var_chao1(counts):
@@ -332,13 +332,13 @@ def chao2(counts, m):
     m: number of replicates
     """
   
-    q1 = counts[0]
+    q1 = float(counts[0])  # squared below: a narrow integer dtype of the counts would overflow
     Sobs = np.sum(counts)
 
     if (len(counts) == 1) or (counts[1] == 0):
         return np.nan
 
-    q2 = counts[1]
+    q2 = float(counts[1])
     return Sobs + q1**2/(2*q2) 
 
 def var_chao2(counts, m):
